@@ -80,7 +80,9 @@ def matchHasPrefix (ci : Bool) (s p : Str) : Bool :=
 def filterPrefix (ci : Bool) (vs : List RawValue) (p : Str) : List RawValue :=
   vs.filter (fun v => matchHasPrefix ci v.value p)
 
-def byDisplayLt (a b : RawValue) : Bool := Str.lt a.display b.display
+/-- `ByDisplay.Less`: by display text, ties broken by value -/
+def byDisplayLt (a b : RawValue) : Bool :=
+  Str.lt a.display b.display || (a.display == b.display && Str.lt a.value b.value)
 
 /-! ### Messages.Integrate (message.go) -/
 
